@@ -403,4 +403,289 @@ theorem prog_recv (s : S) (k : Nat) (d : Bool) (j : Nat) (rest : List Nat) (hk :
   rw [hp]; simp
   omega
 
+theorem prog_put (s : S) (j : Nat) (rest : List Nat) (hpc : s.pc = .putting) (ht : s.todo = j :: rest) (hcap : s.cap = 0 ∨ s.out < s.cap) :
+    ∃ s', step s (.put j) = some s' ∧ Lt s' s := by
+  refine ⟨{ s with todo := rest, buf := s.buf ++ [j], out := s.out + 1 }, by simp [step, ht, hpc, hcap], ?_⟩
+  left
+  have e := itemW_eq ({ s with todo := rest, buf := s.buf ++ [j], out := s.out + 1 } : S) rest (s.buf ++ [j]) s.pipe (sumW s isHaveAny) rfl rfl rfl
+    (sumW_congr s _ isHaveAny rfl rfl)
+  rw [e]
+  unfold itemW
+  rw [ht]; simp
+  omega
+
+theorem prog_close (s : S) (hpc : s.pc = .putting) (ht : s.todo = []) : ∃ s', step s .close = some s' ∧ Lt s' s := by
+  refine ⟨{ s with pc := .closed }, by simp [step, hpc, ht], ?_⟩
+  exact lt_pc s _ (sumW_congr s _ isHaveAny rfl rfl) rfl rfl rfl (by simp [pcRank, hpc])
+
+theorem prog_joinThread (s : S) (hpc : s.pc = .closed) (hb : s.buf = []) : ∃ s', step s .joinThread = some s' ∧ Lt s' s := by
+  refine ⟨{ s with pc := .joined }, by simp [step, hpc, hb], ?_⟩
+  exact lt_pc s _ (sumW_congr s _ isHaveAny rfl rfl) rfl rfl rfl (by simp [pcRank, hpc])
+
+theorem prog_setFlag (s : S) (hpc : s.pc = .joined) : ∃ s', step s .setFlag = some s' ∧ Lt s' s := by
+  refine ⟨{ s with pc := .joining 0, flag := true }, by simp [step, hpc], ?_⟩
+  exact lt_pc s _ (sumW_congr s _ isHaveAny rfl rfl) rfl rfl rfl (by simp [pcRank, hpc])
+
+theorem prog_join (s : S) (k : Nat) (hpc : s.pc = .joining k) (hk : k < s.n) (hw : s.ws k = .exited) :
+    ∃ s', step s (.join k) = some s' ∧ Lt s' s := by
+  refine ⟨{ s with pc := if k + 1 = s.n then .returned else .joining (k + 1) }, by simp [step, hpc, hk, hw], ?_⟩
+  refine lt_pc s _ (sumW_congr s _ isHaveAny rfl rfl) rfl rfl rfl ?_
+  simp only [pcRank, hpc]
+  have h1 : 0 < s.n + 1 - k := by omega
+  have h2 : s.n + 1 - (k + 1) < s.n + 1 - k := by omega
+  by_cases e : k + 1 = s.n
+  · rw [if_pos e]; exact h1
+  · rw [if_neg e]; exact h2
+
+theorem prog_start (s : S) (k : Nat) (hpc : s.pc = .starting k) (hk : k < s.n) (hw : s.ws k = .notStarted) :
+    ∃ s', step s (.start k) = some s' ∧ Lt s' s := by
+  refine ⟨{ setW s k .ready with pc := if k + 1 = s.n then .putting else .starting (k + 1) }, by simp [step, hpc, hk, hw], ?_⟩
+  have hh : sumW (setW s k .ready) isHaveAny = sumW s isHaveAny := by
+    have := sumW_setW s isHaveAny k .ready hk
+    rw [hw] at this; simp only [isHaveAny] at this; omega
+  refine lt_pc s _ ((sumW_congr (setW s k .ready) _ isHaveAny rfl rfl).trans hh) rfl rfl rfl ?_
+  simp only [pcRank, hpc]
+  show (match (if k + 1 = s.n then PC.putting else PC.starting (k + 1)) with
+    | .starting j => 2 * s.n + 5 - j | .putting => s.n + 4 | .closed => s.n + 3 | .joined => s.n + 2
+    | .joining j => s.n + 1 - j | .returned => 0) < 2 * s.n + 5 - k
+  have h1 : s.n + 4 < 2 * s.n + 5 - k := by omega
+  have h2 : 2 * s.n + 5 - (k + 1) < 2 * s.n + 5 - k := by omega
+  by_cases e : k + 1 = s.n
+  · rw [if_pos e]; exact h1
+  · rw [if_neg e]; exact h2
+
+/-- a started, live worker without an item, with the reader lock free, can move closer to its next action -/
+theorem advance_free (items : List Nat) (s : S) (hi : Inv items s) (k : Nat) (hk : k < s.n) (hl : s.rlock = none)
+    (hns : s.ws k ≠ .notStarted) (hne : s.ws k ≠ .exited) (hnh : ∀ i, s.ws k ≠ .have i) :
+    ∃ l s', step s l = some s' ∧ Lt s' s := by
+  have hff := hi.ff
+  cases hw : s.ws k with
+  | notStarted => exact absurd hw hns
+  | exited => exact absurd hw hne
+  | «have» i => exact absurd hw (hnh i)
+  | afterEmpty => exact absurd hw (hi.noAfterEmpty k)
+  | locked d =>
+    have := hi.lockedHolds k hk (by rw [hw]; rfl)
+    rw [hl] at this; cases this
+  | ready =>
+    refine ⟨.begin k, setW s k .top, by simp [step, hk, hw], ?_⟩
+    exact lt_worker s _ k .top hk rfl rfl rfl rfl rfl rfl rfl (by rw [hw]; rfl) rfl (by rw [hw]; cases s.flag <;> simp [wrank])
+  | top =>
+    refine ⟨.flagQ k s.flag, setW s k (.sampled s.flag), by simp [step, hk, hw, hff], ?_⟩
+    exact lt_worker s _ k _ hk rfl rfl rfl rfl rfl rfl rfl (by rw [hw]; rfl) rfl (by rw [hw]; cases s.flag <;> simp [wrank])
+  | sampled d =>
+    refine ⟨.rlock k, { setW s k (.locked d) with rlock := some k }, by simp [step, hk, hl, hw, hff], ?_⟩
+    exact lt_worker s _ k (.locked d) hk rfl rfl rfl rfl rfl rfl rfl (by rw [hw]; rfl) rfl
+      (by rw [hw]; cases s.flag <;> cases d <;> simp [wrank])
+
+/-- once the flag is up and the pipe is empty, a started live worker without an item moves towards its exit even when the
+reader lock is taken -/
+theorem advance_flagged (items : List Nat) (s : S) (hi : Inv items s) (k : Nat) (hk : k < s.n) (j : Nat) (hl : s.rlock = some j)
+    (hf : s.flag = true) (hp : s.pipe = [])
+    (hns : s.ws k ≠ .notStarted) (hne : s.ws k ≠ .exited) (hnh : ∀ i, s.ws k ≠ .have i) :
+    ∃ l s', step s l = some s' ∧ Lt s' s := by
+  have hff := hi.ff
+  obtain ⟨hj, hjl⟩ := hi.lockHolder j hl
+  cases hw : s.ws k with
+  | notStarted => exact absurd hw hns
+  | exited => exact absurd hw hne
+  | «have» i => exact absurd hw (hnh i)
+  | afterEmpty => exact absurd hw (hi.noAfterEmpty k)
+  | ready =>
+    refine ⟨.begin k, setW s k .top, by simp [step, hk, hw], ?_⟩
+    exact lt_worker s _ k .top hk rfl rfl rfl rfl rfl rfl rfl (by rw [hw]; rfl) rfl (by rw [hw, hf]; simp [wrank])
+  | top =>
+    refine ⟨.flagQ k s.flag, setW s k (.sampled s.flag), by simp [step, hk, hw, hff], ?_⟩
+    exact lt_worker s _ k _ hk rfl rfl rfl rfl rfl rfl rfl (by rw [hw]; rfl) rfl (by rw [hw, hf]; simp [wrank])
+  | sampled d =>
+    have hjk : j ≠ k := by
+      intro e; subst e; rw [hw] at hjl; cases hjl
+    have hother : lockedByOther s k = true := by simp [lockedByOther, hl, hjk]
+    refine ⟨.rlockTimeout k, setW s k (if d then .exited else .top), by simp [step, hk, hother, hw, hff], ?_⟩
+    exact lt_worker s _ k _ hk rfl rfl rfl rfl rfl rfl rfl (by rw [hw]; rfl) (by cases d <;> rfl)
+      (by rw [hw, hf]; cases d <;> simp [wrank])
+  | locked d =>
+    have hlk := hi.lockedHolds k hk (by rw [hw]; rfl)
+    refine ⟨.empty k, { setW s k (if s.flagFirst then (if d then .exited else .top) else .afterEmpty) with rlock := none },
+      by simp [step, hk, hlk, hp, hw], ?_⟩
+    rw [hff]
+    exact lt_worker s _ k (if d then .exited else .top) hk rfl (by simp [hff]) rfl rfl rfl rfl rfl (by rw [hw]; rfl) (by cases d <;> rfl)
+      (by rw [hw, hf]; cases d <;> simp [wrank])
+
+/-- an item is in the pipe and some started worker has not exited: either the lock holder receives it, or a worker moves
+towards taking the lock -/
+theorem recv_or_advance (items : List Nat) (s : S) (hi : Inv items s) (x : Nat) (rest : List Nat) (hpipe : s.pipe = x :: rest)
+    (k : Nat) (hk : k < s.n) (hns : s.ws k ≠ .notStarted) (hne : s.ws k ≠ .exited) (hnh : ∀ i, s.ws k ≠ .have i) :
+    ∃ l s', step s l = some s' ∧ Lt s' s := by
+  cases hlock : s.rlock with
+  | some m =>
+    obtain ⟨hm, hml⟩ := hi.lockHolder m hlock
+    cases hwm : s.ws m with
+    | locked d =>
+      obtain ⟨s', h1, h2⟩ := prog_recv s m d x rest hm hlock hwm hpipe
+      exact ⟨_, s', h1, h2⟩
+    | _ => rw [hwm] at hml; cases hml
+  | none => exact advance_free items s hi k hk hlock hns hne hnh
+
+/-- **Progress.**  In every state that satisfies the invariants and in which the producer has not returned, some
+transition is enabled that decreases the measure. -/
+theorem progress (items : List Nat) (s : S) (hi : Inv items s) (hl : Live s) (hp : s.pc ≠ .returned) :
+    ∃ l s', step s l = some s' ∧ Lt s' s := by
+  have hn := hi.npos
+  -- a worker holding an item can always run its callback
+  by_cases hhave : ∃ k, k < s.n ∧ ∃ i, s.ws k = .have i
+  · obtain ⟨k, hk, i, hw⟩ := hhave
+    obtain ⟨s', h1, h2⟩ := prog_cb s k i hk hw
+    exact ⟨_, s', h1, h2⟩
+  have hnh : ∀ k, k < s.n → ∀ i, s.ws k ≠ .have i := fun k hk i hw => hhave ⟨k, hk, i, hw⟩
+  -- the feeder can always flush
+  cases hb : s.buf with
+  | cons i rest =>
+    obtain ⟨s', h1, h2⟩ := prog_flush s i rest hb
+    exact ⟨_, s', h1, h2⟩
+  | nil =>
+  -- once the producer is past the start-up loop every worker has been started
+  have hstarted : (∀ j, s.pc ≠ .starting j) → ∀ k, k < s.n → s.ws k ≠ .notStarted := by
+    intro hps k hk hw
+    obtain ⟨i, hi', _⟩ := (hl.notStarted k hk).1 hw
+    exact hps i hi'
+  -- before the flag is raised no worker has exited
+  have hflag_false : (∀ j, s.pc ≠ .joining j) → s.flag = false := by
+    intro hj
+    cases hfl : s.flag with
+    | false => rfl
+    | true =>
+      rcases hi.flagPc.1 hfl with ⟨k, hk⟩ | hk
+      · exact absurd hk (hj k)
+      · exact absurd hk hp
+  cases hpc : s.pc with
+  | returned => exact absurd hpc hp
+  | starting j =>
+    have hj := hl.startIdx j hpc
+    have hw : s.ws j = .notStarted := (hl.notStarted j hj).2 ⟨j, hpc, Nat.le_refl _⟩
+    obtain ⟨s', h1, h2⟩ := prog_start s j hpc hj hw
+    exact ⟨_, s', h1, h2⟩
+  | joining j =>
+    have hf : s.flag = true := hi.flagPc.2 (Or.inl ⟨j, hpc⟩)
+    have hj := hl.joinIdx j hpc
+    have hst := hstarted (by intro i e; rw [hpc] at e; cases e)
+    cases hpipe : s.pipe with
+    | cons x rest =>
+      have hal := hi.alive hf (by rw [hpipe]; simp)
+      obtain ⟨k, hk, hlive⟩ := (numW_pos s isLive).1 hal
+      exact recv_or_advance items s hi x rest hpipe k hk (hst k hk) (by intro e; rw [e] at hlive; cases hlive) (hnh k hk)
+    | nil =>
+      by_cases hex : s.ws j = .exited
+      · obtain ⟨s', h1, h2⟩ := prog_join s j hpc hj hex
+        exact ⟨_, s', h1, h2⟩
+      · cases hlock : s.rlock with
+        | none => exact advance_free items s hi j hj hlock (hst j hj) hex (hnh j hj)
+        | some m => exact advance_flagged items s hi j hj m hlock hf hpipe (hst j hj) hex (hnh j hj)
+  | putting =>
+    have hf := hflag_false (by intro i e; rw [hpc] at e; cases e)
+    have hst := hstarted (by intro i e; rw [hpc] at e; cases e)
+    cases hpipe : s.pipe with
+    | cons x rest => exact recv_or_advance items s hi x rest hpipe 0 hn (hst 0 hn) ((hi.early hf 0).1) (hnh 0 hn)
+    | nil =>
+      cases ht : s.todo with
+      | nil =>
+        obtain ⟨s', h1, h2⟩ := prog_close s hpc ht
+        exact ⟨_, s', h1, h2⟩
+      | cons x rest =>
+        have hout : s.out = 0 := by rw [hl.outCount, hb, hpipe]; rfl
+        obtain ⟨s', h1, h2⟩ := prog_put s x rest hpc ht (by omega)
+        exact ⟨_, s', h1, h2⟩
+  | closed =>
+    have hf := hflag_false (by intro i e; rw [hpc] at e; cases e)
+    have hst := hstarted (by intro i e; rw [hpc] at e; cases e)
+    cases hpipe : s.pipe with
+    | cons x rest => exact recv_or_advance items s hi x rest hpipe 0 hn (hst 0 hn) ((hi.early hf 0).1) (hnh 0 hn)
+    | nil =>
+      obtain ⟨s', h1, h2⟩ := prog_joinThread s hpc hb
+      exact ⟨_, s', h1, h2⟩
+  | joined =>
+    have hf := hflag_false (by intro i e; rw [hpc] at e; cases e)
+    have hst := hstarted (by intro i e; rw [hpc] at e; cases e)
+    cases hpipe : s.pipe with
+    | cons x rest => exact recv_or_advance items s hi x rest hpipe 0 hn (hst 0 hn) ((hi.early hf 0).1) (hnh 0 hn)
+    | nil =>
+      obtain ⟨s', h1, h2⟩ := prog_setFlag s hpc
+      exact ⟨_, s', h1, h2⟩
+
+/-! ### the liveness theorem -/
+
+theorem run_cons (s s1 : S) (l : L) (tr : List L) (h : step s l = some s1) : run s (l :: tr) = run s1 tr := by
+  simp [run, h]
+
+/-- every state satisfying the invariants has a continuation ending with the producer returned -/
+theorem can_finish_inv (items : List Nat) : ∀ (a b c : Nat) (s : S), itemW s = a → pcRank s = b → workW s = c →
+    Inv items s → Live s → ∃ tr s', run s tr = some s' ∧ s'.pc = .returned := by
+  intro a
+  induction a using Nat.strongRecOn with
+  | _ a iha =>
+    intro b
+    induction b using Nat.strongRecOn with
+    | _ b ihb =>
+      intro c
+      induction c using Nat.strongRecOn with
+      | _ c ihc =>
+        intro s ha hb hc hi hl
+        by_cases hp : s.pc = .returned
+        · exact ⟨[], s, rfl, hp⟩
+        · obtain ⟨l, s1, hstep, hlt⟩ := progress items s hi hl hp
+          have hi1 := inv_step items s s1 l hi hstep
+          have hl1 := live_step s s1 l hl hi.npos hstep
+          have key : ∃ tr s', run s1 tr = some s' ∧ s'.pc = .returned := by
+            rcases hlt with h | ⟨h1, h2⟩ | ⟨h1, h2, h3⟩
+            · exact iha (itemW s1) (by omega) (pcRank s1) (workW s1) s1 rfl rfl rfl hi1 hl1
+            · exact ihb (pcRank s1) (by omega) (workW s1) s1 (by omega) rfl rfl hi1 hl1
+            · exact ihc (workW s1) (by omega) s1 (by omega) (by omega) rfl hi1 hl1
+          obtain ⟨tr, s', hrun, hret⟩ := key
+          exact ⟨l :: tr, s', by rw [run_cons s s1 l tr hstep]; exact hrun, hret⟩
+
+/-- **stage_progress** (no deadlock, termination always possible): from every reachable state of the hand-off protocol —
+any number of workers, any queue capacity, any list of items, any interleaving so far — there is a continuation
+after which the producer has returned; by `C03.stage_no_loss` and `C03.returned_all_exited`, in that state every
+worker has exited and every item has been processed exactly once. -/
+theorem stage_progress (n cap : Nat) (items : List Nat) (hn : 0 < n) (s : S) (hr : Reachable n cap true items s) :
+    ∃ tr s', run s tr = some s' ∧ s'.pc = .returned ∧ (∀ k, k < s'.n → s'.ws k = .exited) ∧
+      (s'.processed.map Prod.fst).Perm items := by
+  have hi := inv_reachable n cap items hn s hr
+  have hl : Live s := by
+    obtain ⟨tr, htr⟩ := hr
+    have : ∀ (tr : List L) (s0 s1 : S), Inv items s0 → Live s0 → run s0 tr = some s1 → Live s1 := by
+      intro tr
+      induction tr with
+      | nil => intro s0 s1 _ h0 hr; simp only [run, Option.some.injEq] at hr; subst hr; exact h0
+      | cons l ls ih =>
+        intro s0 s1 hi0 h0 hr
+        simp only [run] at hr
+        cases hst : step s0 l with
+        | none => rw [hst] at hr; cases hr
+        | some s2 =>
+          rw [hst] at hr
+          exact ih s2 s1 (inv_step items s0 s2 l hi0 hst) (live_step s0 s2 l h0 hi0.npos hst) hr
+    exact this tr _ s (inv_init n cap items hn) (live_init n cap items hn) htr
+  obtain ⟨tr, s', hrun, hret⟩ := can_finish_inv items _ _ _ s rfl rfl rfl hi hl
+  have hr' : Reachable n cap true items s' := by
+    obtain ⟨tr0, h0⟩ := hr
+    refine ⟨tr0 ++ tr, ?_⟩
+    have : ∀ (t1 t2 : List L) (x y : S), run x t1 = some y → run x (t1 ++ t2) = run y t2 := by
+      intro t1
+      induction t1 with
+      | nil => intro t2 x y h; simp only [run, Option.some.injEq] at h; subst h; rfl
+      | cons l ls ih =>
+        intro t2 x y h
+        simp only [run, List.cons_append] at h ⊢
+        cases hst : step x l with
+        | none => rw [hst] at h; cases h
+        | some z => rw [hst] at h; exact ih t2 z y h
+    rw [this tr0 tr _ s h0]; exact hrun
+  exact ⟨tr, s', hrun, hret, returned_all_exited n cap items hn s' hr' hret, (stage_no_loss n cap items hn s' hr' hret).1⟩
+
+/-- non-vacuity: the progress strategy finishes a concrete stage (2 workers, capacity 1, 3 items) -/
+example : ∃ tr s', run (init 2 1 true [5, 6, 7]) tr = some s' ∧ s'.pc = .returned := by
+  obtain ⟨tr, s', h1, h2, _, _⟩ := stage_progress 2 1 [5, 6, 7] (by omega) _ ⟨[], rfl⟩
+  exact ⟨tr, s', h1, h2⟩
+
 end C03Live
